@@ -226,7 +226,8 @@ def readPatchLoop : (fuel : Nat) → List PatchOp → Diff → Outcome Diff
           match acc.getLast? with
           | none => [e]
           | some last =>
-            if equals [] (pathToJson last.path) (pathToJson e.path) && !(hasContext e) then
+            if equals [] (pathToJson last.path) (pathToJson e.path) && !(hasContext e) &&
+               !(!e.remove.isEmpty && !last.add.isEmpty) then
               acc.dropLast ++ [{ last with remove := last.remove ++ e.remove,
                                            add := if lastIdx? e.path == some (-1) then last.add ++ e.add else e.add ++ last.add }]
             else acc ++ [e]
